@@ -339,11 +339,12 @@ class Firewall(Router, discriminator="firewall"):
         if not permitted:
             self.sys_log.info(f"Frame blocked at external inbound by rule {rule}")
             return
-        self.software_manager.arp.add_arp_cache_entry(
-            ip_address=frame.ip.src_ip_address,
-            mac_address=frame.ethernet.src_mac_addr,
-            network_interface=from_network_interface,
-        )
+        if frame.udp and frame.is_arp:  # only ARP packets carry their sender's own MAC
+            self.software_manager.arp.add_arp_cache_entry(
+                ip_address=frame.ip.src_ip_address,
+                mac_address=frame.ethernet.src_mac_addr,
+                network_interface=from_network_interface,
+            )
 
         if self.check_send_frame_to_session_manager(frame):
             # Port is open on this Router so pass Frame up to session manager first
@@ -407,11 +408,12 @@ class Firewall(Router, discriminator="firewall"):
         if not permitted:
             self.sys_log.info(f"Frame blocked at internal outbound by rule {rule}")
             return
-        self.software_manager.arp.add_arp_cache_entry(
-            ip_address=frame.ip.src_ip_address,
-            mac_address=frame.ethernet.src_mac_addr,
-            network_interface=from_network_interface,
-        )
+        if frame.udp and frame.is_arp:  # only ARP packets carry their sender's own MAC
+            self.software_manager.arp.add_arp_cache_entry(
+                ip_address=frame.ip.src_ip_address,
+                mac_address=frame.ethernet.src_mac_addr,
+                network_interface=from_network_interface,
+            )
 
         if self.check_send_frame_to_session_manager(frame):
             # Port is open on this Router so pass Frame up to session manager first
@@ -461,11 +463,12 @@ class Firewall(Router, discriminator="firewall"):
         if not permitted:
             self.sys_log.info(f"Frame blocked at DMZ outbound by rule {rule}")
             return
-        self.software_manager.arp.add_arp_cache_entry(
-            ip_address=frame.ip.src_ip_address,
-            mac_address=frame.ethernet.src_mac_addr,
-            network_interface=from_network_interface,
-        )
+        if frame.udp and frame.is_arp:  # only ARP packets carry their sender's own MAC
+            self.software_manager.arp.add_arp_cache_entry(
+                ip_address=frame.ip.src_ip_address,
+                mac_address=frame.ethernet.src_mac_addr,
+                network_interface=from_network_interface,
+            )
 
         if self.check_send_frame_to_session_manager(frame):
             # Port is open on this Router so pass Frame up to session manager first
